@@ -8,6 +8,7 @@
 // Nothing is sampled; the transform is linear with data-independent control flow, so for n <= NIMP the impulse
 // letters pin the complete matrix.
 #include "vf.hpp"
+#include <cfloat>
 
 using namespace vf;
 using namespace dsplib;
@@ -477,7 +478,9 @@ void czt_against_sum(Ctx& ctx, Run& r, int n, int m, cmplx_t w, const std::vecto
                 }
                 ld sq = 0;
                 for (int k = 0; k < m; ++k) sq += std::norm(cld(X[k].re, X[k].im) - Rm[(size_t)k]);
-                const double err = (sq == sq) ? (double)(sqrtl(sq) / (Lc * (ld)EPS * scale)) : INFINITY;
+                // + underflow floor: each of the n products x_j a^-j w^jk may lose up to DBL_MIN when it leaves the double range
+                const ld uflow = 4 * sqrtl((ld)m) * (ld)n * (ld)DBL_MIN;
+                const double err = (sq == sq) ? (double)(sqrtl(sq) / (Lc * (ld)EPS * scale + uflow)) : INFINITY;
                 if (std::isfinite(err)) ctx.worst(wkey, err);
                 if (!(err <= TOL))
                     ctx.fail(site, fmt("l2 err = %.3g * (n2+max(m,n)^2)*eps*sqrt(m)*sum|x_j a^-j| (w = %.17g%+.17gi), X[0]=%.17g%+.17gi", err, w.re, w.im, X[0].re, X[0].im),
@@ -891,6 +894,38 @@ int main(int argc, char** argv) {
                     }
             }
         }
+    }
+    // ---------------------------------------------------------------- czt with |a| at the edge of [0.5, 2] and long inputs
+    // a^(-j) spans up to 2^(+-n): the result must stay finite and within the usual tolerance whenever sum|x_j a^-j| (times
+    // the internal FFT length) is representable in double; cases where it is not are skipped and counted.
+    {
+        for (int n : {540, 600, 1026, 1100, 2000})
+            for (int m : {5, n})
+                for (int iw = 0; iw < 2; ++iw)
+                    for (int im = 0; im < 4; ++im) {
+                        const double mag = im == 0 ? 0.5 : im == 1 ? 0.6 : im == 2 ? 1.5 : 2.0;
+                        const int p = iw == 0 ? 1 : 7, q = iw == 0 ? m : 100;
+                        if (!ctx.take("czt.amag", P().kv("n", n).kv("m", m).kv("p", p).kv("q", q).kv("amag", mag))) continue;
+                        ctx.nontrivial();
+                        r.untick();
+                        int n2 = 1;
+                        while (n2 < m + n - 1) n2 *= 2;
+                        // largest term |a|^-(n-1); headroom for n terms and the n2-point convolution
+                        if ((ld)(n - 1) * log2l((ld)1 / mag) + log2l((ld)n * n2) > 1000) {
+                            ctx.note("czt.amag skipped: sum|x_j a^-j| * n2 not representable in double");
+                            r.tick();
+                            continue;
+                        }
+                        try {
+                            const cld wl = twid(p, q);
+                            const cmplx_t w((double)wl.real(), (double)wl.imag());
+                            std::vector<cmplx_t> as = {cmplx_t(mag, 0.0), cmplx_t(-mag, 0.0), cmplx_t(mag * std::cos(0.7), mag * std::sin(0.7)), cmplx_t(0.0, mag)};
+                            ctx.note(fmt("czt.amag |a|=%g n=%d", mag, n));
+                            czt_against_sum(ctx, r, n, m, w, as, "czt.amag: l2 err/((n2+max(m,n)^2) eps sqrt(m) sum|x a^-j|)");
+                        } catch (const std::exception& ex) {
+                            ctx.fail("czt", std::string("exception: ") + ex.what(), "a transform", P().kv("kind", "exception"));
+                        }
+                    }
     }
     return ctx.finish();
 }
